@@ -7,7 +7,7 @@ namespace HtmlVerif
 open FS
 
 theorem resolve_posixJoin (a f : Str) (hf : f.head? ≠ some '/') :
-    resolve (posixJoin a f) = resolve a ++ segs (utf8 f) := segs_utf8_posixJoin a f hf
+    pathResolve (posixJoin a f) = pathResolve a ++ segs (utf8 f) := segs_utf8_posixJoin a f hf
 
 theorem sourcePathMap_subdir {d : DepInfo} {pkg : Option Str} {dir abs : Str}
     (hsrc : d.source = .subdir pkg dir abs) (lp : Option Str) (iv : Bool) :
@@ -22,32 +22,32 @@ theorem copyTo_listed (d : DepInfo) (pkg : Option Str) (dir abs : Str)
     (hsrc : d.source = .subdir pkg dir abs) (habs : abs ≠ []) (haf : d.allFiles = false)
     (fl : List Str) (hfl : listedFiles d = .ok fl) (path : Str) (iv : Bool) (fs : FS)
     (hrel : ∀ f ∈ fl, f.head? ≠ some '/')
-    (hfiles : ∀ f ∈ fl, (fs.read (resolve abs ++ segs (utf8 f))).isSome = true)
-    (hST : Apart (resolve abs) (tgtDir d path iv)) (hpath : fs.fileOnPath (tgtDir d path iv) = false) :
+    (hfiles : ∀ f ∈ fl, (fs.read (pathResolve abs ++ segs (utf8 f))).isSome = true)
+    (hST : Apart (pathResolve abs) (tgtDir d path iv)) (hpath : fs.fileOnPath (tgtDir d path iv) = false) :
     ∃ fs', copyTo d path iv fs = (fs', .ok ()) ∧
       (∀ q, ¬ tgtDir d path iv <+: q → fs'.read q = fs.read q) ∧
       (∀ r, fs'.read (tgtDir d path iv ++ r)
-        = if r ∈ fl.map (fun f => segs (utf8 f)) then fs.read (resolve abs ++ r) else none) := by
+        = if r ∈ fl.map (fun f => segs (utf8 f)) then fs.read (pathResolve abs ++ r) else none) := by
   have hitems : copyItems d abs (posixJoin path (dirName d iv)) fs
-      = .ok ((fl.map fun f => segs (utf8 f)).map fun r => (resolve abs ++ r, tgtDir d path iv ++ r)) := by
+      = .ok ((fl.map fun f => segs (utf8 f)).map fun r => (pathResolve abs ++ r, tgtDir d path iv ++ r)) := by
     simp only [copyItems, haf, hfl, List.map_map, Bool.false_eq_true, ↓reduceIte]
     congr 1
     apply List.map_congr_left
     intro f hf
     simp [resolve_posixJoin _ f (hrel f hf), tgtDir]
-  have hall : (((fl.map fun f => segs (utf8 f)).map fun r => (resolve abs ++ r, tgtDir d path iv ++ r)).all
+  have hall : (((fl.map fun f => segs (utf8 f)).map fun r => (pathResolve abs ++ r, tgtDir d path iv ++ r)).all
       fun it => fs.exists it.1) = true := by
     simp only [List.all_eq_true, List.mem_map]
     rintro it ⟨r, ⟨f, hf, rfl⟩, rfl⟩
     exact exists_of_isFile (hfiles f hf)
   have hcur : ∀ q, ¬ tgtDir d path iv <+: q → (fs.removeTree (tgtDir d path iv)).read q = fs.read q := by
     intro q hq; rw [read_removeTree]; simp [hq]
-  obtain ⟨fs', hl, hF, hS⟩ := copyLoop_files (resolve abs) (tgtDir d path iv) hST fs
+  obtain ⟨fs', hl, hF, hS⟩ := copyLoop_files (pathResolve abs) (tgtDir d path iv) hST fs
     (fl.map fun f => segs (utf8 f)) (fs.removeTree (tgtDir d path iv))
     (by intro r hr; obtain ⟨f, hf, rfl⟩ := List.mem_map.mp hr; exact hfiles f hf) hcur
   refine ⟨fs', ?_, hF, ?_⟩
   · have hne : abs.isEmpty = false := by cases abs <;> simp_all
-    have hpath' : fs.fileOnPath (resolve (posixJoin path (dirName d iv))) = false := hpath
+    have hpath' : fs.fileOnPath (pathResolve (posixJoin path (dirName d iv))) = false := hpath
     simp only [copyTo, sourcePathMap_subdir hsrc, withPrefix, hne, hitems, hall]
     simpa [tgtDir, hpath'] using hl
   · intro r
@@ -80,15 +80,15 @@ theorem exists_of_topLevel {fs : FS} {S : Path} {n : Bytes} (h : n ∈ fs.topLev
 /-- `copy_to` with `all_files`: the whole source directory -/
 theorem copyTo_all (d : DepInfo) (pkg : Option Str) (dir abs : Str)
     (hsrc : d.source = .subdir pkg dir abs) (habs : abs ≠ []) (haf : d.allFiles = true)
-    (path : Str) (iv : Bool) (fs : FS) (hwf : SrcWF fs (resolve abs))
-    (hST : Apart (resolve abs) (tgtDir d path iv)) (hpath : fs.fileOnPath (tgtDir d path iv) = false) :
+    (path : Str) (iv : Bool) (fs : FS) (hwf : SrcWF fs (pathResolve abs))
+    (hST : Apart (pathResolve abs) (tgtDir d path iv)) (hpath : fs.fileOnPath (tgtDir d path iv) = false) :
     ∃ fs', copyTo d path iv fs = (fs', .ok ()) ∧
       (∀ q, ¬ tgtDir d path iv <+: q → fs'.read q = fs.read q) ∧
-      (∀ r, fs'.read (tgtDir d path iv ++ r) = if r = [] then none else fs.read (resolve abs ++ r)) := by
+      (∀ r, fs'.read (tgtDir d path iv ++ r) = if r = [] then none else fs.read (pathResolve abs ++ r)) := by
   have hitems : copyItems d abs (posixJoin path (dirName d iv)) fs
-      = .ok ((fs.topLevel (resolve abs)).map fun n => (resolve abs ++ [n], tgtDir d path iv ++ [n])) := by
+      = .ok ((fs.topLevel (pathResolve abs)).map fun n => (pathResolve abs ++ [n], tgtDir d path iv ++ [n])) := by
     simp [copyItems, haf, tgtDir]
-  have hall : (((fs.topLevel (resolve abs)).map fun n => (resolve abs ++ [n], tgtDir d path iv ++ [n])).all
+  have hall : (((fs.topLevel (pathResolve abs)).map fun n => (pathResolve abs ++ [n], tgtDir d path iv ++ [n])).all
       fun it => fs.exists it.1) = true := by
     simp only [List.all_eq_true, List.mem_map]
     rintro it ⟨n, hn, rfl⟩
@@ -97,12 +97,12 @@ theorem copyTo_all (d : DepInfo) (pkg : Option Str) (dir abs : Str)
     intro q hq; rw [read_removeTree]; simp [hq]
   have hclr : ∀ q, (fs.removeTree (tgtDir d path iv)).read (tgtDir d path iv ++ q) = none := by
     intro q; rw [read_removeTree]; simp
-  obtain ⟨fs', hl, hF, h1, h2⟩ := copyLoop_all (resolve abs) (tgtDir d path iv) hST fs hwf
-    (fs.topLevel (resolve abs)) (fs.removeTree (tgtDir d path iv)) (nodup_dedupB _) hcur
+  obtain ⟨fs', hl, hF, h1, h2⟩ := copyLoop_all (pathResolve abs) (tgtDir d path iv) hST fs hwf
+    (fs.topLevel (pathResolve abs)) (fs.removeTree (tgtDir d path iv)) (nodup_dedupB _) hcur
     (fun n _ r => hclr (n :: r))
   refine ⟨fs', ?_, hF, ?_⟩
   · have hne : abs.isEmpty = false := by cases abs <;> simp_all
-    have hpath' : fs.fileOnPath (resolve (posixJoin path (dirName d iv))) = false := hpath
+    have hpath' : fs.fileOnPath (pathResolve (posixJoin path (dirName d iv))) = false := hpath
     simp only [copyTo, sourcePathMap_subdir hsrc, withPrefix, hne, hitems, hall]
     simpa [tgtDir, hpath'] using hl
   · intro r
@@ -113,12 +113,12 @@ theorem copyTo_all (d : DepInfo) (pkg : Option Str) (dir abs : Str)
       simp only [List.append_nil] at h0 h3
       simp [h0, h3]
     | n :: r =>
-      by_cases hn : n ∈ fs.topLevel (resolve abs)
+      by_cases hn : n ∈ fs.topLevel (pathResolve abs)
       · simp [h1 n r hn]
       · have := h2 (n :: r) (by intro k hk; simp; intro e; exact hn (e ▸ hk))
         rw [this, hclr]
-        have hnone : fs.read (resolve abs ++ n :: r) = none := by
-          cases hx : fs.read (resolve abs ++ n :: r) with
+        have hnone : fs.read (pathResolve abs ++ n :: r) = none := by
+          cases hx : fs.read (pathResolve abs ++ n :: r) with
           | none => rfl
           | some v => exact absurd (mem_topLevel.mpr ⟨r, by simp [hx]⟩) hn
         simp [hnone]
